@@ -11,17 +11,33 @@ LEVEL_TEXT = ("Partial proof (machine-checked composition). Proved in Lean over 
               "its independently computed one (hypothesis hFaithful = optimiser reach C10 + code length C07 + exact transfer C05; C01/C03 give the line and "
               "the match), no enumerated tree beats the top row. NOT proved: hFaithful, which is numerical; it is sampled on every run by full pipeline runs "
               "(generate, fit, Fisher, match, combine) on data with planted truths, against the closed-form description length of every tree of the "
-              "library that is linear in its parameters, together with the reproducibility of every row of final_<n>.dat.")
-TECHNIQUE = "Lean 4 composition of the C06 theorems + end-to-end pipeline runs against an independent closed-form description length"
+              "library that is linear in its parameters, together with the reproducibility of every row of final_<n>.dat. "
+              "Props/C04b adds the row-reproducibility chain over the stage models: stage1_row_reproducible (C10 params_reproduce_nll under MinimiserSpec, every arm "
+              "(parameter-count class, log_opt) of the regenerated optimiser table), fisher_row_reproducible (C07 nll_at_reported), match_row_reproducible (C05 matchRow_nll, "
+              "transfer exactness as a named hypothesis), final_row_reproducible (C06 row_is_min: a final row copies a variant row) and their composition "
+              "every_final_row_reproducible_partial; stage1_best_backtransform_needed shows that reporting the best value with the sign bookkeeping of another iteration breaks it. "
+              "The end-to-end runs cover the fitting stage's options (log_opt False/True, start box, tmax) and multimodal fits (a periodic hook basis and osc_maths with a planted "
+              "frequency): every row of negloglike_comp, codelen_comp_deriv, codelen_matches_comp and final_ is recomputed with evaluators that use no ESR code (string and tree), "
+              "and the top row is compared with the planted tree's description length computed from the data alone.")
+TECHNIQUE = ("Lean 4 composition of the C06 theorems and of the C10/C07/C05/C06 row-reproducibility theorems + end-to-end pipeline runs (option space, unimodal and "
+             "multimodal fits, run concurrently) against an independent closed-form / bracketed description length and independent row evaluators")
 RULE = ("one case = one (data set, tree) pair: the top row's DL against the tree's closed-form DL, plus every final-table row's reproducibility; non-trivial = "
-        "the tree is linear in its parameters after a one-to-one reparametrisation of each (a0*x, x/a0, x + 1/a0, ...) and not within 5% of a snapping threshold; distinct by (planted truth, noise, seed, tree line)")
+        "the tree is linear in its parameters after a one-to-one reparametrisation of each (a0*x, x/a0, x + 1/a0, ...) and not within 5% of a snapping threshold, or it is the planted "
+        "one-parameter tree of an option run (sin(a0*x), a0*x) with an interior optimum next to the planted value; distinct by (planted truth, noise, seed, fit options, tree line)")
 EXPLANATION = LEVEL_TEXT
 TRUSTED = ["harness/oracle_mdl.py (closed-form weighted least squares, exact Hessian, snapping rule, tree code length)",
-           "the pipeline is run with the library of the staged copy and a Gaussian likelihood on synthetic data"]
-ASSUMPTIONS = ["hFaithful (numerical): sampled, tolerance 5e-3 in description length", "only trees linear after a per-parameter reparametrisation have an independent closed form here; a weak parameter that cannot be zeroed is coded with ln 2 (ESR's convention, the larger of the candidate values, so the oracle never demands more than the code promises)"]
+           "the pipeline is run with the library of the staged copy and a Gaussian likelihood on synthetic data",
+           "harness/oracle_tree.py (prefix-tree evaluator) and the numpy string evaluator of harness/props/c04.py (pow(a,b) = |a|**b); scipy minimize_scalar for the planted tree"]
+ASSUMPTIONS = ["hFaithful (numerical): sampled, tolerance 5e-3 in description length",
+               "row reproducibility is judged up to the 8 significant digits with which -logL and the parameters are stored (tolerance = 2e-5 relative + twice the effect of a last-digit change of any reported parameter); only rows of the FINAL table are violations, rows of the earlier stage files localise them",
+               "multimodal trees: optimality is judged only for the planted tree (optimum bracketed at the planted value, reliably found by both optimiser modes on the chosen data); a multi-start that misses the global optimum of another multimodal tree is the named numerical gap (MinimiserSpec / FitSpec), not judged",
+               "C04b: MinimiserSpec, transfer exactness at the likelihood level and the stage-to-stage read links are hypotheses (RowChain); option runs use tmax=60 so that the outcome does not depend on machine load", "only trees linear after a per-parameter reparametrisation have an independent closed form here; a weak parameter that cannot be zeroed is coded with ln 2 (ESR's convention, the larger of the candidate values, so the oracle never demands more than the code promises)"]
 # tables whose committed version may stand in as a hand-written model when the translator cannot read the source;
 # value = the correspondence that then ties it to the code (common.prove / common.decide)
-FALLBACK = {'Rank': 'real combine_DL.main on random tables vs the Lean ranking model (the C06 correspondence, run here when the table cannot be regenerated)'}
+FALLBACK = {'Rank': 'real combine_DL.main on random tables vs the Lean ranking model (the C06 correspondence, run here when the table cannot be regenerated)',
+            'Match': 'every row of codelen_matches_comp<n>.dat of every end-to-end run recomputed with the independent evaluators (the match-stage statement of Props/C04b observed on the real code)',
+            'Codelen': 'every row of codelen_comp<n>_deriv.dat of every end-to-end run recomputed with the independent evaluators (the Fisher-stage statement of Props/C04b observed on the real code)',
+            'Optim': 'every row of negloglike_comp<n>.dat of every end-to-end run, log_opt False and True, recomputed with the independent evaluators (the fitting-stage statement of Props/C04b observed on the real code)'}
 MODELLED = []
 
 TOL = 5e-3
